@@ -16,6 +16,7 @@ Reading that is formalised (per request, `reqOk`):
   (P) params         every extracted (name, value) is `{name}` in the applied pattern at a position where the
                      request has segment `value`;
   (N) normalised     the reported normalised URL IS the applied declared pattern (which matches, by S);
+  (D) dispatcher     the remedy answering through `DispatchOnRequest` is entitled to (global, or S);
   (G) globals        global remedies/diagnoses are the enabled global ones; `shouldDiagnose` is their disjunction
                      with the applied endpoint diagnoses.
 and per case (`orderOk`): (O) the answers do not depend on the declaration order.
@@ -54,11 +55,20 @@ structure Req where
   ans : Answer
 deriving Repr
 
+/-- An early response obtained through `runner.DispatchOnRequest`: the remedy that answered. -/
+structure Disp where
+  method : String
+  url : String
+  parts : List Part
+  first : String
+deriving Repr
+
 /-- One `build` (a declaration order) with the requests answered by that tree. -/
 structure Round where
   eps : List Endpoint
   built : String
   reqs : List Req
+  disps : List Disp := []
 deriving Repr
 
 /-- Answer of the raw trie `Lookup` (L1). -/
@@ -93,9 +103,10 @@ def observe (pt : PTree) (g : Globals) (method : String) (us : List Part) : Answ
 
 /-! ### excluded classes -/
 
-/-- F13a: two declared endpoints with different patterns, one (laxly) matching the other's URL. -/
+/-- F13a, order-insensitive form: two declared endpoints with different patterns, one (as the trie keeps
+    it: cut after its first `*`) laxly matching the other's URL. -/
 def crossMatch (eps : List Endpoint) : Bool :=
-  eps.any fun e1 => eps.any fun e2 => e1.parts != e2.parts && matchesLax e1.parts e2.parts
+  eps.any fun e1 => eps.any fun e2 => e1.parts != e2.parts && matchesLax (trunc e1.parts) e2.parts
 
 /-- F13a, order-sensitive form: a declared URL is matched by an EARLIER declared different pattern. -/
 def crossMatchEarlier : List Endpoint → Bool
@@ -106,12 +117,15 @@ def crossMatchEarlier : List Endpoint → Bool
 /-- F13c: some declared pattern follows the URL across the host/path boundary. -/
 def boundaryMix (eps : List Endpoint) (u : Url) : Bool := eps.any fun e => !flagsOK e.parts u
 
+/-- F13c among the declarations themselves: a declared pattern follows another declared URL across `/`. -/
+def cfgBoundaryMix (eps : List Endpoint) : Bool := eps.any fun e => boundaryMix eps e.parts
+
 /-- F13d -/
 def emptySegment (u : Url) : Bool := !urlNonEmpty u
 
 /-- F13b: some declared `*` pattern matches `u` with nothing left for the `*`, or another declared pattern
     runs along `u` through the position of that `*`. -/
-def wildDisplaced (eps : List Endpoint) (u : Url) : Bool := displaced (eps.map (·.parts)) u
+def wildDisplaced (eps : List Endpoint) (u : Url) : Bool := displaced (eps.map (fun e => trunc e.parts)) u
 
 /-- F13e -/
 def dupKeys : List Endpoint → Bool
@@ -156,6 +170,13 @@ def normOk (eps : List Endpoint) (method : String) (u : Url) (a : Answer) : Bool
   | none => true
   | some _ => eps.any fun e => soundFor method u a e && a.normParts == e.parts
 
+/-- (D) the remedy that answered through the dispatcher is an enabled global one, or an enabled remedy of an
+    endpoint declared for this method whose pattern matches the URL. -/
+def dispOk (eps : List Endpoint) (g : Globals) (method : String) (u : Url) (first : String) : Bool :=
+  g.remedies.any (fun r => r.enabled && r.name == first) ||
+  eps.any fun e => e.method == method && «matches» e.parts u &&
+    e.remedies.any (fun r => r.enabled && r.name == first)
+
 /-- The whole per-request property. -/
 def reqOk (eps : List Endpoint) (g : Globals) (method : String) (u : Url) (a : Answer) : Bool :=
   soundOk eps method u a && mostSpecificOk eps method u a && paramsOkA eps method u a &&
@@ -177,8 +198,8 @@ def roundsAgree (r1 r2 : Round) : Bool :=
 /-! ### verdicts (used by the judge) -/
 
 def classifyReq (eps : List Endpoint) (u : Url) : String :=
-  if crossMatch eps then "F13a"
-  else if boundaryMix eps u || eps.any (fun e => boundaryMix eps e.parts) then "F13c"
+  if crossMatchEarlier eps then "F13a"
+  else if boundaryMix eps u then "F13c"
   else if emptySegment u then "F13d"
   else "-"
 
@@ -199,9 +220,15 @@ def reqVerdicts (g : Globals) (r : Round) : List Verdict :=
     else if !globalsOk g a then some ⟨"-", "globals " ++ who⟩
     else none
 
+def dispVerdicts (g : Globals) (r : Round) : List Verdict :=
+  if r.built != "ok" then [] else
+  r.disps.filterMap fun d =>
+    if dispOk r.eps g d.method d.parts d.first then none
+    else some ⟨classifyReq r.eps d.parts, s!"dispatcher-applied-unentitled-remedy {d.method} {d.url} first={d.first}"⟩
+
 def classifyOrder (eps : List Endpoint) : String :=
   if crossMatch eps then "F13a"
-  else if eps.any (fun e => boundaryMix eps e.parts) then "F13c"
+  else if cfgBoundaryMix eps then "F13c"
   else if dupKeys eps then "F13e"
   else "-"
 
@@ -213,7 +240,7 @@ def orderVerdicts : List Round → List Verdict
       else some ⟨classifyOrder r1.eps, s!"order-dependent built={r1.built}/{r2.built}"⟩) ++ orderVerdicts rest
 
 def caseVerdicts (g : Globals) (rounds : List Round) : List Verdict :=
-  (rounds.flatMap (reqVerdicts g)) ++ orderVerdicts rounds
+  (rounds.flatMap (reqVerdicts g)) ++ (rounds.flatMap (dispVerdicts g)) ++ orderVerdicts rounds
 
 /-- Per case: everything observed satisfies the property. -/
 def holds (g : Globals) (rounds : List Round) : Bool := (caseVerdicts g rounds).isEmpty
